@@ -308,7 +308,27 @@ class SumTo(_ListSpec):
 def _native_sumto():
     ns = {}; exec(SRC_SUMTO, ns); xs = [3, 4]; ns['sum_to'](xs); return xs != [3, 4]
 
-CASES = [('zero_fill', SRC_ZERO, ZeroFill, None), ('clobber', SRC_CLOBBER, Clobber, _native_clobber), ('clobber_w', SRC_CLOBBER_W, ClobberW, _native_clobber_w),
+SRC_NONE = '''
+def first_or_zero(xs):
+    if not xs:
+        return 0
+    return xs[0]
+'''
+class FirstOrZero(Spec):
+    """a list-typed parameter may be None: `not xs` is true for None and for the empty list"""
+    def bind(self, E, p):
+        h = p.heap
+        for nme in ('$len', '$items:int'): h.arr(nme)
+        self.h0 = h.copy(); self.xs = z3.Const('xs', Ref); p.env['xs'] = V('list[int]', self.xs)
+        p.pc += [Implies(self.xs != NULL, And(self.h0.alloc[self.xs], ln(self.h0, self.xs) >= 0))]
+    def bounds(self, E): return [ln(self.h0, self.xs)]
+    def ensures(self, E, ctx, p, ret):
+        return [('T:none-gives-0', Implies(self.xs == NULL, ret.term == 0)), ('T:first', Implies(And(self.xs != NULL, ln(self.h0, self.xs) > 0), ret.term == items_i(self.h0, self.xs)[0])),
+                ('F:always-first', Implies(self.xs != NULL, ret.term == items_i(self.h0, self.xs)[0]))]
+def _native_none():
+    ns = {}; exec(SRC_NONE, ns); return ns['first_or_zero'](None) == 0 and ns['first_or_zero']([]) == 0
+
+CASES = [('first_or_zero', SRC_NONE, FirstOrZero, _native_none), ('zero_fill', SRC_ZERO, ZeroFill, None), ('clobber', SRC_CLOBBER, Clobber, _native_clobber), ('clobber_w', SRC_CLOBBER_W, ClobberW, _native_clobber_w),
          ('alias', SRC_ALIAS, Alias, _native_alias), ('fdiv', SRC_FDIV, FDiv, _native_fdiv), ('pmod', SRC_MOD, PMod, _native_mod), ('last', SRC_LAST, Last, _native_last),
          ('last', SRC_LAST, LastEmpty, _native_last_empty), ('find', SRC_FIND, Find, _native_find), ('setx', SRC_SETX, SetX, _native_setx), ('put', SRC_PUT, Put, _native_put),
          ('count', SRC_COUNT, Count, _native_count), ('rows', SRC_ROWS, Rows, _native_rows), ('fresh_rows', SRC_FRESHROWS, FreshRows, _native_fresh_rows), ('chk', SRC_CHK, Chk, _native_chk),
